@@ -73,10 +73,10 @@ U = _U()
 
 
 class Macro:
-    __slots__ = ("name", "params", "body", "ctx", "scopes", "tname")
+    __slots__ = ("name", "params", "body", "ctx", "scopes", "tname", "tl")
 
-    def __init__(self, name, params, body, ctx, scopes, tname):
-        self.name, self.params, self.body, self.ctx, self.scopes, self.tname = name, params, body, ctx, scopes, tname
+    def __init__(self, name, params, body, ctx, scopes, tname, tl):
+        self.name, self.params, self.body, self.ctx, self.scopes, self.tname, self.tl = name, params, body, ctx, scopes, tname, tl
 
 
 class Module:
@@ -131,13 +131,29 @@ class Frame:
         self.ok = ok  # names of ctx.extra this frame may legitimately read
         self.own = own  # index into scopes: scopes[own:] belong to this function (closure scopes before)
         self.closure = False  # True inside a macro body (reads of enclosing names are closure reads)
+        self.tl = root  # RootState of the template root function this frame is lexically nested in (or None)
 
 
 class RootState:
-    __slots__ = ("parent",)
+    """Run-time state of one template root function: the parent set by ``extends`` and the
+    top-level names this function has assigned so far."""
+
+    __slots__ = ("parent", "assigned")
 
     def __init__(self):
         self.parent = None
+        self.assigned = set()
+
+
+class Scope(dict):
+    """One lexical level (loop body, with body, macro body, set block, block body); ``declared`` =
+    names this level assigns somewhere in its own statements."""
+
+    __slots__ = ("declared",)
+
+    def __init__(self, values, declared):
+        super().__init__(values)
+        self.declared = declared
 
 
 def static_stores(body):
@@ -285,18 +301,24 @@ class Interp:
     # -- name lookup ---------------------------------------------------------------------
     def lookup(self, name, frame):
         scopes = frame.scopes
-        for i in range(len(scopes) - 1, -1, -1):
+        n = len(scopes)
+        ctx = frame.ctx
+        for i in range(n - 1, -1, -1):
             s = scopes[i]
             if name in s:
                 return s[name]
-        ctx = frame.ctx
+            if i < n - 1 and name in s.declared:
+                # an enclosing level assigns the name, but not yet: the inner read finds nothing, even
+                # when a binding exists further out -- not defined by the documentation (DESIGN.md 3.2)
+                if any(name in scopes[j] for j in range(i)) or name in ctx.vars or name in ctx.parent:
+                    raise Ambiguous("inner-scope read of later-assigned name %r" % name)
+                return U
+        if frame.tl is not None and n > 0 and name in self.tl_stores(frame.tname) and name not in frame.tl.assigned:
+            if name in ctx.vars or name in ctx.parent:
+                raise Ambiguous("inner-scope read of later-assigned top-level name %r" % name)
+            return U
         if name in ctx.vars:
             return ctx.vars[name]
-        if frame.closure and name in self.tl_stores(frame.tname):
-            # closure read of a name its template assigns at top level, not assigned yet
-            if name in ctx.parent:
-                raise Ambiguous("closure read of later-assigned name %r" % name)
-            return U
         if name in ctx.parent:
             if name in ctx.extra and name not in frame.ok:
                 raise Ambiguous("block reads %r through a derived context it was not scoped into" % name)
@@ -375,10 +397,12 @@ class Interp:
             raise Ambiguous("too many macro arguments")
         self.enter()
         try:
-            scope = {p: (args[i] if i < len(args) else U) for i, p in enumerate(fn.params)}
+            scope = Scope({p: (args[i] if i < len(args) else U) for i, p in enumerate(fn.params)},
+                          static_stores(fn.body) | set(fn.params))
             scopes = list(fn.scopes) + [scope]
             frame = Frame(fn.ctx, fn.tname, scopes=scopes, own=len(fn.scopes))
             frame.closure = True
+            frame.tl = fn.tl
             out = []
             self.body(fn.body, frame, out)
             return "".join(out)
@@ -417,7 +441,7 @@ class Interp:
         self.enter()
         try:
             tname, node = ctx.blocks[name][idx]
-            frame = Frame(ctx, tname, scopes=[{}], block=(name, idx), ok=ok)
+            frame = Frame(ctx, tname, scopes=[Scope({}, static_stores(node[3]))], block=(name, idx), ok=ok)
             out = []
             self.body(node[3], frame, out)
             return "".join(out)
@@ -435,6 +459,7 @@ class Interp:
         if frame.toplevel and len(frame.scopes) == 0:
             ctx = frame.ctx
             ctx.vars[name] = value
+            frame.root.assigned.add(name)
             if discard:
                 if not name.startswith("_"):
                     ctx.exported.discard(name)
@@ -475,8 +500,10 @@ class Interp:
         elif k == "set":
             self.assign(frame, n[1], self.ev(n[2], frame))
         elif k == "setblock":
-            sub = Frame(frame.ctx, frame.tname, scopes=frame.scopes + [{}], block=frame.block, ok=frame.ok, own=frame.own)
+            sub = Frame(frame.ctx, frame.tname, scopes=frame.scopes + [Scope({}, static_stores(n[2]))], block=frame.block,
+                        ok=frame.ok, own=frame.own)
             sub.closure = frame.closure
+            sub.tl = frame.tl
             buf = []
             self.body(n[2], sub, buf)
             self.assign(frame, n[1], "".join(buf))
@@ -485,20 +512,20 @@ class Interp:
         elif k == "for":
             items = n[2]
             for idx, item in enumerate(items):
-                frame.scopes.append({n[1]: item, "loop": Loop(idx + 1)})
+                frame.scopes.append(Scope({n[1]: item, "loop": Loop(idx + 1)}, static_stores(n[3]) | {n[1]}))
                 try:
                     self.body(n[3], frame, out)
                 finally:
                     frame.scopes.pop()
         elif k == "with":
             v = self.ev(n[2], frame)
-            frame.scopes.append({n[1]: v})
+            frame.scopes.append(Scope({n[1]: v}, static_stores(n[3]) | {n[1]}))
             try:
                 self.body(n[3], frame, out)
             finally:
                 frame.scopes.pop()
         elif k == "macro":
-            m = Macro(n[1], n[2], n[3], frame.ctx, list(frame.scopes), frame.tname)
+            m = Macro(n[1], n[2], n[3], frame.ctx, list(frame.scopes), frame.tname, frame.tl)
             if not (frame.toplevel and len(frame.scopes) == 0):
                 self.events.add("nested_macro")
             self.assign(frame, n[1], m)
